@@ -311,6 +311,40 @@ def oracle(p):
             except Exception as e:  # noqa
                 fail("C11:StationaryVelocityFieldTransform:raises", f"raised {type(e).__name__}: {e}", case)
 
+    # buffers of the cubic B-spline stationary velocity transform (align_corners=True grids only): u = expv(v) with the module's
+    # scale / steps, and the inverse transform's u = expv(v) with the NEGATED scale and the same steps
+    for it in range(max(6, n // 10)):
+        D = rng.choice([2, 3])
+        size = tuple(rng.randint(6, 10 if D == 2 else 7) for _ in range(D))
+        k = [0, 1, 2, 3, 4, 6][it % 6]
+        scale = rng.choice([1.0, 0.5, 2.0, -1.0])
+        stride = rng.choice([1, 2, 3])
+        case = {"D": D, "size": list(size), "steps": k, "scale": scale, "stride": stride}
+        try:
+            from deepali.spatial import StationaryVelocityFreeFormDeformation
+            tr = StationaryVelocityFreeFormDeformation(Grid(size=size, align_corners=True), stride=stride, scale=scale, steps=k)
+            gen = torch.Generator().manual_seed(rng.randrange(10 ** 6))
+            tr.data_((torch.rand(tr.data().shape, generator=gen) - 0.5) * 0.3)
+            tr.update()
+            count("SVFFD-transform")
+            du = float((tr.u - FL.expv(tr.v, scale=scale, steps=k, align_corners=True)).abs().max())
+            if not du <= 1e-12:
+                fail("C11:StationaryVelocityFreeFormDeformation:u-buffer", f"buffer u differs from expv(v, scale={scale}, steps={k}) by {du:.3g}", case)
+            for upd in (True, False):
+                inv = tr.inverse(update_buffers=upd)
+                if not upd:
+                    inv.update()
+                wi = FL.expv(tr.v, scale=-scale, steps=k, align_corners=True)
+                di = float((inv.u - wi).abs().max())
+                if inv.exp.steps != k or inv.exp.scale != -scale or not di <= 1e-12:
+                    fail("C11:StationaryVelocityFreeFormDeformation:inverse-u-buffer",
+                         f"inverse(update_buffers={upd}).u differs from expv(v, scale={-scale}, steps={k}) by {di:.3g} "
+                         f"(inverse module: scale={inv.exp.scale}, steps={inv.exp.steps})", case)
+            if float((tr.u - FL.expv(tr.v, scale=scale, steps=k, align_corners=True)).abs().max()) > 1e-12:
+                fail("C11:StationaryVelocityFreeFormDeformation:inverse-modifies-original", "inverse() changed the buffers of the original transform", case)
+        except Exception as e:  # noqa
+            fail("C11:StationaryVelocityFreeFormDeformation:raises", f"raised {type(e).__name__}: {str(e)[:150]}", case)
+
     # convergence to the matrix exponential (numeric exploration of the closed-form limit; labelled partial)
     for it in range(max(4, n // 12)):
         D = rng.choice([2, 3])
